@@ -245,10 +245,24 @@ CHECKS = {
     ref='DESIGN.md#c18'),
 }
 
+CHECKS['C15'] = dict(
+    technique='bit-precise comparison (canonical ROBDD per bit) of the loop-free building blocks of the renderer with their '
+              'definitions; one symbolic iteration of the OAM scan, of the object-cache fill and of the mode-3 pixel loop '
+              '(loop state summarised)',
+    text='Does NOT decide the property as stated: the composition of a 160x144 frame from 16 KiB of VRAM/OAM data (tile fetch '
+         'sequencing with SCX/SCY wrap-around, window switch, which of the ten objects covers a pixel by X then OAM index) runs '
+         'through data-dependent loops and is out of reach of a sound static argument here.  What IS decided are necessary '
+         'conditions - the building blocks every pixel passes through, each for all inputs: the plane interleave; row fetch '
+         'and horizontal flip; LCDC decode and unsigned / signed tile addressing; BGP / OBP decode; per OAM entry the on-line '
+         'test, vertical flip, the 8x16 tile-number rule, attribute bits, OAM order and the ten-object limit; the object '
+         'line cache cell format and its write guard; per pixel of the mode-3 loop the BG/OBJ mixing rule, the palette cell '
+         'used, the position LY*160+x and the advance of the caches.  If one of these is wrong some frame is wrong; all of them '
+         'holding does not make every frame right.',
+    note=TB + 'The shade bytes are an arbitrary injective encoding of the four DMG shades.  Loop-carried state is summarised: '
+         'the per-iteration rules say what one step does, not that the steps are composed in the right order.' + VL,
+    ref='DESIGN.md#c15')
+
 NOT_APPLICABLE = {
- 'C15': 'pixel composition is a function of runtime VRAM/OAM contents; deciding it needs execution or symbolic '
-        'evaluation of the renderer; no structural clause is a necessary condition covering the statement '
-        '(DESIGN.md C15)',
 }
 PENDING = 'static check designed (DESIGN.md) but not yet built in this commit; not claimed until it exists'
 
